@@ -1,3 +1,618 @@
 package main
 
-func checkCmd(args []string) {}
+import (
+	"bufio"
+	"encoding/json"
+	"flag"
+	"fmt"
+	"os"
+	"os/exec"
+	"path/filepath"
+	"regexp"
+	"sort"
+	"strings"
+	"sync"
+	"time"
+
+	"govc/internal/vc"
+)
+
+type plan struct {
+	Property   string
+	Packages   []string
+	Context    string
+	Verify     []string
+	Sweep      []string
+	Lemmas     []string
+	Replay     [][2]string // obligation substring -> adapter
+	Assume     []string
+	NotDecided []string
+	Bounded    []string
+}
+
+func readPlan(path string) (*plan, error) {
+	f, err := os.Open(path)
+	if err != nil {
+		return nil, err
+	}
+	defer f.Close()
+	p := &plan{}
+	pkg := ""
+	sc := bufio.NewScanner(f)
+	for sc.Scan() {
+		line := strings.TrimSpace(sc.Text())
+		if line == "" || strings.HasPrefix(line, "#") {
+			continue
+		}
+		word, rest := line, ""
+		if i := strings.IndexAny(line, " \t"); i > 0 {
+			word, rest = line[:i], strings.TrimSpace(line[i+1:])
+		}
+		switch word {
+		case "property":
+			p.Property = rest
+		case "packages":
+			p.Packages = append(p.Packages, strings.Fields(rest)...)
+		case "context":
+			p.Context = rest
+		case "pkg":
+			pkg = rest
+		case "verify", "sweep":
+			key := rest
+			if pkg != "" && !strings.Contains(key, "/") {
+				switch {
+				case strings.HasPrefix(key, "(*"):
+					key = "(*" + pkg + "." + key[2:]
+				case strings.HasPrefix(key, "("):
+					key = "(" + pkg + "." + key[1:]
+				default:
+					key = pkg + "." + key
+				}
+			}
+			if word == "verify" {
+				p.Verify = append(p.Verify, key)
+			} else {
+				p.Sweep = append(p.Sweep, key)
+			}
+		case "lemma":
+			p.Lemmas = append(p.Lemmas, rest)
+		case "replay":
+			f := strings.Fields(rest)
+			if len(f) == 2 {
+				p.Replay = append(p.Replay, [2]string{f[0], f[1]})
+			}
+		case "assume":
+			p.Assume = append(p.Assume, rest)
+		case "notdecided":
+			p.NotDecided = append(p.NotDecided, rest)
+		default:
+			return nil, fmt.Errorf("%s: unknown plan directive %q", path, word)
+		}
+	}
+	return p, sc.Err()
+}
+
+type finding struct {
+	Status     string `json:"status"` // known | fixed
+	Property   string `json:"property"`
+	Obligation string `json:"obligation"`
+	Commit     string `json:"commit,omitempty"`
+	What       string `json:"what"`
+}
+
+func checkCmd(args []string) {
+	fs := flag.NewFlagSet("check", flag.ExitOnError)
+	repo := fs.String("repo", "/repo", "repository root")
+	root := fs.String("root", "/verif", "verification root")
+	planPath := fs.String("plan", "", "plan file")
+	tier := fs.String("tier", "quick", "quick|thorough")
+	seed := fs.Int("seed", 0, "seed (only seeds nothing that affects a proof)")
+	fs.Parse(args)
+	start := time.Now()
+	pl, err := readPlan(*planPath)
+	if err != nil {
+		fmt.Fprintln(os.Stderr, err)
+		os.Exit(2)
+	}
+	timeout := 10
+	if *tier == "thorough" {
+		timeout = 60
+	}
+	prog, err := vc.Load(*repo, pl.Packages)
+	if err != nil {
+		fmt.Fprintln(os.Stderr, "load:", err)
+		os.Exit(2)
+	}
+	if err := prog.LoadContracts(filepath.Join(*root, "specs")); err != nil {
+		fmt.Fprintln(os.Stderr, "contracts:", err)
+		os.Exit(2)
+	}
+	work := filepath.Join(*root, "work", pl.Property)
+	os.RemoveAll(work)
+	os.MkdirAll(work, 0o755)
+	defer os.RemoveAll(work)
+
+	type unit struct {
+		name string
+		ex   *vc.Exec
+		err  error
+		pos  string
+	}
+	var units []*unit
+	verified := map[string]bool{}
+	run := func(key string, sweep bool) {
+		u := &unit{name: key}
+		units = append(units, u)
+		fn := prog.FindFunc(key)
+		if fn == nil {
+			u.err = fmt.Errorf("function not found in the current tree")
+			return
+		}
+		u.pos = prog.Fset.Position(fn.Pos()).String()
+		ctr := prog.Spec.Contracts[vc.FuncKey(fn)]
+		if ctr == nil && !sweep {
+			u.err = fmt.Errorf("no contract for %s", key)
+			return
+		}
+		u.ex = &vc.Exec{P: prog, Out: vc.NewScript(), Opt: vc.Options{Sweep: sweep}}
+		u.err = u.ex.VerifyFunction(fn, ctr)
+		verified[vc.FuncKey(fn)] = true
+	}
+	for _, key := range pl.Verify {
+		run(key, false)
+	}
+	for _, key := range pl.Sweep {
+		run(key, true)
+	}
+	for _, name := range pl.Lemmas {
+		u := &unit{name: "lemma:" + name}
+		units = append(units, u)
+		var lem *vc.Lemma
+		for _, l := range prog.Spec.Lemmas {
+			if l.Name == name {
+				lem = l
+			}
+		}
+		if lem == nil {
+			u.err = fmt.Errorf("lemma not found")
+			continue
+		}
+		u.pos = lem.Src
+		u.ex = &vc.Exec{P: prog, Out: vc.NewScript()}
+		ctx := pl.Context
+		if lem.Pkg != "" {
+			ctx = lem.Pkg
+		}
+		var cp = prog.ByPath[ctx]
+		if cp == nil {
+			u.err = fmt.Errorf("lemma context package %q not loaded", ctx)
+			continue
+		}
+		u.err = u.ex.VerifyLemma(lem, cp.Types)
+	}
+	// solve
+	{
+		var wg sync.WaitGroup
+		for i, u := range units {
+			if u.ex == nil || u.err != nil {
+				continue
+			}
+			wg.Add(1)
+			go func(i int, u *unit) {
+				defer wg.Done()
+				vc.Solve(u.ex.Out, filepath.Join(work, fmt.Sprintf("u%02d", i)), timeout, 6, false)
+			}(i, u)
+		}
+		wg.Wait()
+	}
+	if *tier == "thorough" {
+		for i, u := range units {
+			if u.ex == nil || u.err != nil {
+				continue
+			}
+			vc.CrossCheck(u.ex.Out, filepath.Join(work, fmt.Sprintf("x%02d", i)), 30, 16)
+		}
+	}
+	// findings
+	var findings struct {
+		Findings []finding `json:"findings"`
+	}
+	if b, err := os.ReadFile(filepath.Join(*root, "known_findings.json")); err == nil {
+		json.Unmarshal(b, &findings)
+	}
+	known := func(name string) *finding {
+		for i := range findings.Findings {
+			f := &findings.Findings[i]
+			if f.Status == "known" && f.Property == pl.Property && f.Obligation == name {
+				return f
+			}
+		}
+		return nil
+	}
+	// collect
+	total, discharged, violations := 0, 0, 0
+	var solverTime, maxTime float64
+	bySolver := map[string]int{}
+	var samples []map[string]any
+	var funcs []map[string]any
+	var failed []map[string]any
+	cross := map[string]int{}
+	replayDir := filepath.Join(*root, "replays", pl.Property)
+	os.MkdirAll(replayDir, 0o755)
+	report := func(name, why string, o *vc.Obligation, u *unit) {
+		if f := known(name); f != nil {
+			fmt.Printf("KNOWN-FINDING: property=%s %s: %s\n", pl.Property, name, f.What)
+			failed = append(failed, map[string]any{"obligation": name, "known_finding": true, "what": f.What})
+			return
+		}
+		violations++
+		path := filepath.Join(replayDir, sanitize(name)+".json")
+		rep := map[string]any{"property": pl.Property, "obligation": name, "reason": why}
+		suffix := " no-failing-input-found"
+		if o != nil {
+			rep["clause"] = o.Text
+			rep["source"] = o.Src
+			rep["solver_output"] = o.Detail
+			rep["kind"] = o.Kind
+			if o.Model != "" {
+				rep["solver_model"] = o.Model
+				rep["model_is_candidate_from_relaxed_context"] = o.Relaxed
+			}
+			vals := modelValues(o)
+			if len(vals) > 0 {
+				rep["model"] = vals
+			}
+			adapter := ""
+			for _, r := range pl.Replay {
+				if strings.Contains(name, r[0]) {
+					adapter = r[1]
+					break
+				}
+			}
+			if adapter != "" {
+				confirmed := false
+				if input, ok := adapterInput(adapter, vals); ok && len(vals) > 0 {
+					out, res := runReplay(*repo, *root, adapter, input)
+					rep["replay"] = map[string]any{"adapter": adapter, "input_from": "solver model", "input": json.RawMessage(input), "result": res, "output": out}
+					confirmed = res == "confirmed"
+				}
+				if !confirmed {
+					// the solver gave no (confirmable) model: let the adapter search its boundary corpus on the real code
+					out, res := runReplay(*repo, *root, adapter, `{"search":true}`)
+					rep["replay_search"] = map[string]any{"adapter": adapter, "input_from": "adapter boundary corpus (not the solver)", "result": res, "output": out}
+					confirmed = res == "confirmed"
+				}
+				if confirmed {
+					suffix = ""
+				}
+			} else {
+				rep["replay"] = map[string]any{"result": "no-adapter"}
+			}
+		}
+		b, _ := json.MarshalIndent(rep, "", " ")
+		os.WriteFile(path, b, 0o644)
+		fmt.Printf("VIOLATION property=%s replay=%s obligation=%s%s\n", pl.Property, path, name, suffix)
+		failed = append(failed, map[string]any{"obligation": name, "reason": why, "replay": path})
+	}
+	for _, u := range units {
+		if u.err != nil {
+			total++
+			report(u.name+"/generate", u.err.Error(), nil, u)
+			funcs = append(funcs, map[string]any{"function": u.name, "position": u.pos, "status": "not verified: " + u.err.Error()})
+			continue
+		}
+		n, d := 0, 0
+		for _, o := range u.ex.Out.Obls {
+			total++
+			n++
+			solverTime += o.TimeS
+			if o.TimeS > maxTime {
+				maxTime = o.TimeS
+			}
+			if o.Status == "discharged" {
+				discharged++
+				d++
+				bySolver[o.Solver]++
+				if len(samples) < 6 && o.Kind != "frame" && o.Kind != "cover" && o.Kind != "canary" {
+					samples = append(samples, map[string]any{"obligation": o.Name, "clause": o.Text, "solver": o.Solver, "time_s": round3(o.TimeS)})
+				}
+				if o.Cross != "" {
+					cross[o.Cross]++
+					if strings.Contains(o.Cross, "sat!") {
+						report(o.Name, "cross-solver disagreement: "+o.Cross, o, u)
+					}
+				}
+			} else {
+				report(o.Name, o.Status+" ("+o.Detail+")", o, u)
+			}
+		}
+		funcs = append(funcs, map[string]any{"function": u.name, "position": u.pos, "obligations": n, "discharged": d})
+	}
+	if total == 0 {
+		fmt.Printf("VIOLATION property=%s replay=%s no obligations generated no-failing-input-found\n", pl.Property, filepath.Join(replayDir, "none.json"))
+		violations++
+	}
+	// trusted base
+	var trusted []string
+	for k := range prog.Trusted {
+		trusted = append(trusted, k)
+	}
+	for key, c := range prog.Spec.Contracts {
+		if c.Kind == "func" && usedContract(prog, key) && !verified[key] {
+			trusted = append(trusted, "assumed here (verified under another property or not at all): contract of "+key)
+		}
+		if c.Kind == "iface" && usedContract(prog, key) {
+			trusted = append(trusted, "interface contract (implementations checked separately): "+key)
+		}
+	}
+	trusted = append(trusted, "govc itself (VC generator), go/packages, go/types, go/ssa (x/tools v0.29.0)", "z3 5.1.0, z3 4.8.12, cvc5 1.0.3",
+		"integers: exact machine arithmetic per Go type (wrap-around modelled); slice capacities < 2^62",
+		"dropped by the extraction: logging/tracing/metrics calls, goroutine scheduling, channels, recover, memory limits, dependency bodies, termination")
+	sort.Strings(trusted)
+	ev := map[string]any{
+		"property_id": pl.Property,
+		"tier":        *tier,
+		"seed":        *seed,
+		"level":       "proof",
+		"coverage": map[string]any{
+			"obligations":        total,
+			"discharged":         discharged,
+			"checker_cmd":        fmt.Sprintf("bin/govc check -plan %s -tier %s (obligations raced on z3-new, z3, cvc5; timeout %ds each)", *planPath, *tier, timeout),
+			"trusted_base":       trusted,
+			"samples":            samples,
+			"functions":          funcs,
+			"by_solver":          bySolver,
+			"solver_time_s":      round3(solverTime),
+			"max_obligation_s":   round3(maxTime),
+			"failed_obligations": failed,
+			"cross_solver":       cross,
+			"not_decided":        pl.NotDecided,
+		},
+		"assumptions": append(append([]string{}, pl.Assume...), pl.NotDecided...),
+		"wall_s":      round3(time.Since(start).Seconds()),
+		"violations":  violations,
+	}
+	os.MkdirAll(filepath.Join(*root, "evidence"), 0o755)
+	b, _ := json.MarshalIndent(ev, "", " ")
+	os.WriteFile(filepath.Join(*root, "evidence", pl.Property+".json"), b, 0o644)
+	fmt.Printf("%s %s: %d obligations, %d discharged, %d violations, %.1fs\n", pl.Property, *tier, total, discharged, violations, time.Since(start).Seconds())
+	if violations > 0 {
+		os.Exit(1)
+	}
+}
+
+func usedContract(p *vc.Program, key string) bool {
+	return p.Trusted["used contract: "+key]
+}
+
+func round3(f float64) float64 { return float64(int(f*1000+0.5)) / 1000 }
+
+func sanitize(s string) string {
+	re := regexp.MustCompile(`[^A-Za-z0-9_.:-]+`)
+	s = re.ReplaceAllString(s, "_")
+	if len(s) > 150 {
+		s = s[len(s)-150:]
+	}
+	return s
+}
+
+// modelValues pairs the observed sub-expressions of the clause with the solver's values.
+func modelValues(o *vc.Obligation) map[string]string {
+	out := map[string]string{}
+	if o.Model == "" {
+		return out
+	}
+	txt := o.Model
+	i := strings.Index(txt, "((")
+	if i < 0 {
+		return out
+	}
+	pairs := parsePairs(txt[i:])
+	nObs := len(o.Obs)
+	nIn := len(o.Inputs)
+	for k, pv := range pairs {
+		idx := k - (nIn - nObs)
+		if idx >= 0 && idx < nObs {
+			out[o.Obs[idx].Text] = pv[1]
+		} else {
+			out[pv[0]] = pv[1]
+		}
+	}
+	return out
+}
+
+// parsePairs parses "((t v) (t v) ...)".
+func parsePairs(s string) [][2]string {
+	var out [][2]string
+	depth := 0
+	start := -1
+	for i := 0; i < len(s); i++ {
+		switch s[i] {
+		case '|':
+			j := strings.IndexByte(s[i+1:], '|')
+			if j < 0 {
+				return out
+			}
+			i += j + 1
+		case '"':
+			j := strings.IndexByte(s[i+1:], '"')
+			if j < 0 {
+				return out
+			}
+			i += j + 1
+		case '(':
+			depth++
+			if depth == 2 {
+				start = i
+			}
+		case ')':
+			if depth == 2 && start >= 0 {
+				inner := s[start+1 : i]
+				if t, v, ok := splitTermValue(inner); ok {
+					out = append(out, [2]string{t, v})
+				}
+				start = -1
+			}
+			depth--
+			if depth == 0 {
+				return out
+			}
+		}
+	}
+	return out
+}
+
+func splitTermValue(s string) (string, string, bool) {
+	s = strings.TrimSpace(s)
+	depth := 0
+	for i := 0; i < len(s); i++ {
+		switch s[i] {
+		case '|':
+			j := strings.IndexByte(s[i+1:], '|')
+			if j < 0 {
+				return "", "", false
+			}
+			i += j + 1
+		case '"':
+			j := strings.IndexByte(s[i+1:], '"')
+			if j < 0 {
+				return "", "", false
+			}
+			i += j + 1
+		case '(':
+			depth++
+		case ')':
+			depth--
+		case ' ', '\n', '\t':
+			if depth == 0 {
+				return strings.TrimSpace(s[:i]), strings.TrimSpace(s[i+1:]), true
+			}
+		}
+	}
+	return "", "", false
+}
+
+func smtInt(v string) (string, bool) {
+	v = strings.TrimSpace(v)
+	if m := regexp.MustCompile(`^\(-\s*(\d+)\)$`).FindStringSubmatch(v); m != nil {
+		return "-" + m[1], true
+	}
+	if regexp.MustCompile(`^\d+$`).MatchString(v) {
+		return v, true
+	}
+	return "", false
+}
+
+func pick(vals map[string]string, patterns ...string) (string, bool) {
+	for _, p := range patterns {
+		re := regexp.MustCompile(p)
+		var keys []string
+		for k := range vals {
+			keys = append(keys, k)
+		}
+		sort.Strings(keys)
+		for _, k := range keys {
+			if re.MatchString(k) {
+				if n, ok := smtInt(vals[k]); ok {
+					return n, true
+				}
+			}
+		}
+	}
+	return "", false
+}
+
+// adapterInput builds the JSON input of a replay adapter from model values.
+func adapterInput(adapter string, vals map[string]string) (string, bool) {
+	dom := func() string {
+		p, ok := pick(vals, `^prefix4\(`)
+		if !ok {
+			return "[1,0,0,0]"
+		}
+		var n uint64
+		fmt.Sscan(p, &n)
+		return fmt.Sprintf("[%d,%d,%d,%d]", n&255, (n>>8)&255, (n>>16)&255, (n>>24)&255)
+	}
+	opt := func(s string, ok bool) string {
+		if !ok {
+			return "null"
+		}
+		return s
+	}
+	switch adapter {
+	case "rules_att":
+		s, ok1 := pick(vals, `^req\.Source\.Epoch$`, `Source\.Epoch`)
+		t, ok2 := pick(vals, `^req\.Target\.Epoch$`, `Target\.Epoch`)
+		if !ok1 || !ok2 {
+			return "", false
+		}
+		S, okS := pick(vals, `^old\(.*(SourceEpoch|wmAttS)`)
+		T, okT := pick(vals, `^old\(.*(TargetEpoch|wmAttT)`)
+		if !okS || !okT {
+			S, T, okS, okT = "", "", false, false
+		}
+		return fmt.Sprintf(`{"S":%s,"T":%s,"s":"%s","t":"%s","domain":%s}`, opt(S, okS), opt(T, okT), s, t, dom()), true
+	case "rules_prop":
+		slot, ok := pick(vals, `^req\.Slot$`, `\.Slot$`)
+		if !ok {
+			return "", false
+		}
+		L, okL := pick(vals, `^old\(.*(wmPropL|\.Slot)`)
+		d := dom()
+		if _, has := pick(vals, `^prefix4\(`); !has {
+			d = "[0,0,0,0]"
+		}
+		return fmt.Sprintf(`{"L":%s,"slot":"%s","domain":%s}`, opt(L, okL), slot, d), true
+	}
+	return "", false
+}
+
+var adapterPkg = map[string][2]string{
+	"rules_att":  {"rules/standard", "TestVerifReplayRulesAtt"},
+	"rules_prop": {"rules/standard", "TestVerifReplayRulesProp"},
+}
+
+// runReplay injects the adapter as an in-package test through -overlay (nothing is written to the repo).
+func runReplay(repo, root, adapter, input string) (string, string) {
+	info, ok := adapterPkg[adapter]
+	if !ok {
+		return "", "no-adapter"
+	}
+	tmp, err := os.MkdirTemp("", "govc-replay")
+	if err != nil {
+		return err.Error(), "error"
+	}
+	defer os.RemoveAll(tmp)
+	src, err := os.ReadFile(filepath.Join(root, "replay", adapter+".go.tmpl"))
+	if err != nil {
+		return err.Error(), "error"
+	}
+	testFile := filepath.Join(tmp, "zz_verif_replay_test.go")
+	os.WriteFile(testFile, src, 0o644)
+	ov := map[string]any{"Replace": map[string]string{filepath.Join(repo, info[0], "zz_verif_replay_test.go"): testFile}}
+	b, _ := json.Marshal(ov)
+	ovFile := filepath.Join(tmp, "ov.json")
+	os.WriteFile(ovFile, b, 0o644)
+	cmd := exec.Command("go", "test", "-overlay", ovFile, "-vet=off", "-timeout", "60s", "-count=1", "-v", "-run", "^"+info[1]+"$", "./"+info[0]+"/")
+	cmd.Dir = repo
+	cmd.Env = append(os.Environ(), "GOFLAGS=-mod=mod", "GOPROXY=off", "GOSUMDB=off", "GOTOOLCHAIN=local", "VERIF_REPLAY_INPUT="+input)
+	out, _ := cmd.CombinedOutput()
+	var lines []string
+	res := "not-reproduced"
+	for _, l := range strings.Split(string(out), "\n") {
+		if strings.HasPrefix(l, "REPLAY") {
+			lines = append(lines, l)
+		}
+		if strings.HasPrefix(l, "REPLAY-RESULT confirmed") {
+			res = "confirmed"
+		}
+	}
+	if len(lines) == 0 {
+		t := string(out)
+		if len(t) > 2000 {
+			t = t[len(t)-2000:]
+		}
+		return t, "error"
+	}
+	return strings.Join(lines, "\n"), res
+}
